@@ -75,4 +75,33 @@ def specSvcRoute (l : Latest) (n : Name) (svc : SvcName) : Option SvcRoute :=
   | some d => (lastIdx svc d.services 0).map (fun i => ⟨n, d.ver, i⟩)
   | none => none
 
+/-! ### who owns a service listed by several live targets (fix D31): claims in claim order -/
+
+/-- per service, the live targets whose latest description lists it, ordered by the start of their current
+    uninterrupted claim (a target that drops the service and lists it again later goes to the back) -/
+abbrev Claims := SvcName → List Name
+
+def Claims.step (c : Claims) (l : Latest) : Op → Claims
+  | .watch _ => c
+  | .update n d =>
+    if l.watched n = true ∧ d.name = n then
+      fun x => if listedB d.services x then (if n ∈ c x then c x else c x ++ [n])
+               else (c x).filter (fun m => decide (m ≠ n))
+    else c
+  | .close n => fun x => (c x).filter (fun m => decide (m ≠ n))
+
+def claimsFrom (l : Latest) (c : Claims) : List Op → Claims
+  | [] => c
+  | op :: ops => claimsFrom (l.step op) (c.step l op) ops
+
+def claimsOf (h : List Op) : Claims := claimsFrom Latest.init (fun _ => []) h
+
+/-- the entries a table built from the latest descriptions holds for `x`: the owner first, then the waiting
+    claimants, each pointing into its own latest description -/
+def specEntries (l : Latest) (c : Claims) (x : SvcName) : List SvcRoute :=
+  (c x).filterMap (fun n => specSvcRoute l n x)
+
+/-- the owner: the live lister with the oldest uninterrupted claim -/
+def specOwner (l : Latest) (c : Claims) (x : SvcName) : Option SvcRoute := (specEntries l c x).head?
+
 end GB.C06
